@@ -357,6 +357,9 @@ def check(col: Collector, tier: str):
         col.add("C07.R8", k.name, "dataset-object-not-written-by-a-query", not bad,
                 f"a dataset object is used for many queries: what one query declares (docker image metadata, the query itself) must stay in locals, "
                 f"never on the dataset ({bad})", k.module.rel)
+    from sa.props._tr import import_obligations
+    import_obligations(col, "C07.R8", "c06", lambda o: o.detail == "coder-keeps-no-state",
+                       "the collection coders live as long as their executor: a table they keep is a history carrier that reset() does not know")
     # ---------------- R6 fresh visitor / generated code per translation
     col.floor("C07.R6", 5)
     wf = ex.methods["write_cpp_files"]
